@@ -6,9 +6,16 @@ use crate::common::*;
 use crate::des::Stats;
 use crate::server::*;
 use crate::world::*;
-use coap_lite::block_handler::BlockValue;
-use coap_lite::{CoapOption, Packet};
+use crate::refparse::{self, Fields};
 use std::collections::BTreeMap;
+
+/// Option numbers (oracles decode replies with the reference parser, not
+/// with the codec of the crate under test).
+#[allow(non_snake_case)]
+mod CoapOption {
+    pub const Block1: u32 = 27;
+    pub const Block2: u32 = 23;
+}
 
 #[derive(Clone, Debug, PartialEq)]
 pub enum Shape {
@@ -48,12 +55,12 @@ pub struct TransferView {
     pub open_before: bool,
 }
 
-fn reply_packet(a: &Arrival) -> Option<Packet> {
-    a.reply.as_ref().and_then(|b| Packet::from_bytes(b).ok())
+fn reply_packet(a: &Arrival) -> Option<Fields> {
+    a.reply.as_ref().and_then(|b| refparse::accept(b))
 }
 
-fn block_opt(p: &Packet, o: CoapOption) -> Option<(u16, bool, u8)> {
-    p.get_first_option_as::<BlockValue>(o).and_then(|x| x.ok()).map(|b| (b.num, b.more, b.size_exponent))
+fn block_opt(p: &Fields, o: u32) -> Option<(u32, bool, u8)> {
+    p.block(o)
 }
 
 /// Classifies every cooperative transfer of a run.
@@ -126,7 +133,7 @@ pub fn classify(server: &Server, lanes: &[Lane]) -> Vec<TransferView> {
             open_at.push(open);
             let a = &log[sq];
             if let Some(p) = reply_packet(a) {
-                if u8::from(p.header.code) < 0x80 {
+                if p.code < 0x80 {
                     if let Some((_, more, _)) = block_opt(&p, CoapOption::Block2) {
                         if a.app.is_some() {
                             // a fresh response: it starts a transfer (which
@@ -415,7 +422,7 @@ pub fn check_c09(server: &Server, t: &TransferSpec, v: &TransferView, stats: &mu
             match &rp {
                 None => out.push(Violation::new("C09", "continue", format!("no reply to {}", what))),
                 Some(p) => {
-                    let code = u8::from(p.header.code);
+                    let code = p.code;
                     if code != 0x5F {
                         out.push(Violation::new("C09", "continue", format!("{} answered {}.{:02} instead of 2.31", what, code >> 5, code & 31)));
                     }
@@ -456,7 +463,7 @@ pub fn check_c09(server: &Server, t: &TransferSpec, v: &TransferView, stats: &mu
                 match &rp {
                     None => out.push(Violation::new("C09", "final-ack", format!("no reply to final {}", what))),
                     Some(p) => {
-                        if block_opt(p, CoapOption::Block1).is_none() && p.get_option(CoapOption::Block1).is_none() {
+                        if block_opt(p, CoapOption::Block1).is_none() && p.first_opt(CoapOption::Block1).is_none() {
                             out.push(Violation::new("C09", "final-ack", format!("reply to final {} carries no Block1 option", what)));
                         }
                     }
@@ -499,7 +506,7 @@ pub fn check_c09_too_large(server: &Server, stats: &mut Stats, out: &mut Vec<Vio
         if a.bytes_len > m && m >= a.req_overhead + 28 && m <= 1280 {
             stats.hit("c09.too-large.checked");
             let rp = reply_packet(a);
-            let ok = rp.as_ref().map_or(false, |p| u8::from(p.header.code) == 0x8D && block_opt(p, CoapOption::Block1).is_some());
+            let ok = rp.as_ref().map_or(false, |p| p.code == 0x8D && block_opt(p, CoapOption::Block1).is_some());
             if !ok || a.app.is_some() {
                 out.push(Violation::new(
                     "C09",
@@ -593,7 +600,7 @@ pub fn check_c08(server: &Server, lane: &Lane, t: &TransferSpec, v: &TransferVie
             out.push(Violation::new("C08", "progress", format!("request {} got no (parseable) reply ({})", k, ctx)));
             return true;
         };
-        let code = u8::from(p.header.code);
+        let code = p.code;
         if code >= 0x80 {
             out.push(Violation::new("C08", "progress", format!("request {} answered {}.{:02} \"{}\" ({})", k, code >> 5, code & 31, String::from_utf8_lossy(&p.payload), ctx)));
             return true;
@@ -604,7 +611,7 @@ pub fn check_c08(server: &Server, lane: &Lane, t: &TransferSpec, v: &TransferVie
         }
         // application options repeated on every block
         for (num, vals) in &call.opts_out {
-            let got: Vec<Vec<u8>> = p.get_option(CoapOption::from(*num)).map(|l| l.iter().cloned().collect()).unwrap_or_default();
+            let got: Vec<Vec<u8>> = p.opt_values(*num as u32);
             if &got != vals {
                 out.push(Violation::new("C08", "options", format!("block {} does not repeat application option {} unchanged ({})", k, num, ctx)));
             }
